@@ -63,7 +63,7 @@ static std::string intJson(int64_t v) {
 
 static std::string decJson(double d) {
   double h = d * 2.0;
-  if (h == (double)(long long)h && h > -1e9 && h < 1e9 && !(h == 0 && std::signbit(d)))
+  if (std::isfinite(h) && h > -1e9 && h < 1e9 && h == (double)(long long)h && !(h == 0 && std::signbit(d)))
     return "{\"t\":\"dec\",\"h\":" + std::to_string((long long)h) + "}";
   uint64_t u; memcpy(&u, &d, 8);
   return "{\"t\":\"bigdec\",\"w\":[" + std::to_string(u & 0xffff) + "," + std::to_string((u >> 16) & 0xffff) + "," +
@@ -110,6 +110,55 @@ static std::string valueJson(const Value& cv, int depth = 0) {
   }
   default: return "{\"t\":\"other\"}";
   }
+}
+
+
+// ---- 64-bit operands / results for the arithmetic oracle (8 little-endian bytes) --------------
+static std::string b8Json(uint64_t u) {
+  std::string o = "[";
+  for (int i = 0; i < 8; ++i) { if (i) o += ','; o += std::to_string((unsigned)((u >> (8 * i)) & 0xff)); }
+  return o + "]";
+}
+static uint64_t b8Val(const vj::Val* a) {
+  uint64_t u = 0;
+  if (a) for (size_t i = 0; i < a->a.size() && i < 8; ++i) u |= (uint64_t)(a->a[i]->n & 0xff) << (8 * i);
+  return u;
+}
+// exact description of a double: class, sign, odd 53-bit mantissa (as 8 bytes) and binary exponent
+static std::string dblJson(double d) {
+  if (std::isnan(d)) return "{\"t\":\"dec\",\"cls\":\"nan\",\"s\":0,\"m\":[0,0,0,0,0,0,0,0],\"e\":0}";
+  if (std::isinf(d)) return std::string("{\"t\":\"dec\",\"cls\":\"inf\",\"s\":") + (d < 0 ? "1" : "0") + ",\"m\":[0,0,0,0,0,0,0,0],\"e\":0}";
+  int sgn = std::signbit(d) ? 1 : 0;
+  double a = std::fabs(d);
+  int e = 0; uint64_t m = 0;
+  if (a != 0) {
+    double f = std::frexp(a, &e);           // a = f * 2^e, 0.5 <= f < 1
+    m = (uint64_t)std::ldexp(f, 53); e -= 53;
+    while (m && (m & 1) == 0) { m >>= 1; ++e; }
+  }
+  return std::string("{\"t\":\"dec\",\"cls\":\"fin\",\"s\":") + std::to_string(sgn) + ",\"m\":" + b8Json(m) + ",\"e\":" + std::to_string(e) + "}";
+}
+static Value operandValue(const vj::Val* o) {
+  std::string k = o->str("k");
+  if (k == "i") return Value(Integer((int64_t)b8Val(o->get("b8"))));
+  if (k == "ni") return Value(Value::type_integer);
+  if (k == "nd") return Value(Value::type_numeric);
+  if (k == "n") return Value();
+  if (k == "d") {
+    std::string cls = o->str("cls", "fin");
+    if (cls == "nan") return Value(Numeric(std::nan("")));
+    if (cls == "inf") return Value(Numeric(o->num("s") ? -INFINITY : INFINITY));
+    double d = std::ldexp((double)b8Val(o->get("m")), (int)o->num("e"));
+    return Value(Numeric(o->num("s") ? -d : d));
+  }
+  return Value();
+}
+static std::string resultJson(Value& v) {
+  Value& d = v.deref_value();
+  if (d.isNull()) return std::string("{\"t\":\"null\",\"ty\":") + typeJson(d.type(), nullptr) + "}";
+  if (d.type().level() == 0 && d.type() == Type::INTEGER) return "{\"t\":\"int\",\"b8\":" + b8Json((uint64_t)*d.integer()) + "}";
+  if (d.type().level() == 0 && d.type() == Type::NUMERIC) return dblJson(*d.numeric());
+  return valueJson(d);
 }
 
 struct Ctx {
@@ -340,6 +389,54 @@ static std::string doStep(const vj::Val& st) {
       delete p;
       o += ",\"oc\":" + vj::q(oc) + ",\"no\":" + std::to_string(no) + ",\"name\":" + vj::q(name);
       o += ",\"out\":" + vj::q(drainOut(c)) + "," + stateJson(*c.ctx);
+    }
+    else if (op == "arith") {
+      /* operands are bound through the API (no literal parsing involved), the expression is compiled once */
+      Ctx& c = getCtx(id);
+      const vj::Val* pairs = st.get("pairs");
+      std::string res = "[", res2 = "[";
+      StringReader rd(st.str("expr") + ";");
+      StringReader rd2(st.str("expr2") + ";");
+      Parser* p = Parser::createInteractiveParser(*c.ctx, rd);
+      Parser* p2 = st.get("expr2") ? Parser::createInteractiveParser(*c.ctx, rd2) : nullptr;
+      Expression* e = nullptr;
+      Expression* e2 = nullptr;
+      std::string oc = "ok";
+      try {
+        if (pairs && !pairs->a.empty()) {
+          /* declare the operand symbols with the type of the first pair */
+          Value a0 = operandValue(pairs->a[0]->get("a"));
+          Value b0 = operandValue(pairs->a[0]->get("b"));
+          const Symbol& sa = c.ctx->registerSymbol("A", a0.type());
+          const Symbol& sb = c.ctx->registerSymbol("B", b0.type());
+          c.ctx->storeVariable(sa.id(), std::move(a0));
+          c.ctx->storeVariable(sb.id(), std::move(b0));
+        }
+        e = p->parseExpression();
+        if (p2) e2 = p2->parseExpression();
+        bool first = true;
+        if (pairs) for (auto& pr : pairs->a) {
+          Symbol* sa = c.ctx->findSymbol("A"); Symbol* sb = c.ctx->findSymbol("B");
+          c.ctx->storeVariable(sa->id(), operandValue(pr->get("a")));
+          c.ctx->storeVariable(sb->id(), operandValue(pr->get("b")));
+          if (!first) res += ','; first = false;
+          try { res += resultJson(e->value(*c.ctx)); }
+          catch (RuntimeError& re) { res += "{\"t\":\"err\",\"name\":" + vj::q(errName(re)) + ",\"no\":" + std::to_string((int)re.no) + "}"; }
+          c.ctx->purgeWorkingMemory();
+          if (e2) {
+            if (res2.size() > 1) res2 += ',';
+            try { res2 += resultJson(e2->value(*c.ctx)); }
+            catch (RuntimeError& re) { res2 += "{\"t\":\"err\",\"name\":" + vj::q(errName(re)) + ",\"no\":" + std::to_string((int)re.no) + "}"; }
+            c.ctx->purgeWorkingMemory();
+          }
+        }
+      } catch (ParseError& pe) { oc = "parse_error"; }
+      res += "]"; res2 += "]";
+      if (e) delete e;
+      if (e2) delete e2;
+      delete p;
+      if (p2) delete p2;
+      o += ",\"oc\":" + vj::q(oc) + ",\"res\":" + res + ",\"res2\":" + res2 + "," + stateJson(*c.ctx);
     }
     else if (op == "unparse") {
       Ctx& c = getCtx(id);
